@@ -19,6 +19,8 @@ import MultiModel.Gen.BlasDispatch
 import MultiProofs.BlasLemmas
 import MultiProofs.BlasShapes
 import MultiProofs.BlasGemm
+import MultiProofs.BlasGemv
+import MultiProofs.BlasLevel1
 
 namespace Multi.C13
 open Multi.Blas Multi.Blas.Gen
@@ -39,6 +41,8 @@ macro "shapes_dec" : tactic => `(tactic| exact ⟨by wf_dec, by wf_dec, by wf_de
 
 /-- memory used by the concrete counterexamples: distinct small values -/
 def wmem : Mem Int := fun a => a * a + 1
+/-- the same over the Gaussian integers -/
+def zmem : Mem GInt := fun a => ⟨a * a + 1, 2 * a + 3⟩
 
 /-! ## gemm_n, overload for non-conjugated A and B (gemm.hpp:45-86) -/
 section nn
@@ -267,6 +271,399 @@ theorem gemm_n_correct_partial {nd : Bool} {alpha beta : R} {a b c : Mat} {t : N
   obtain ⟨g, hg, hok⟩ := gemm_n_certified hs hc h hd
   exact ⟨g, hg, (illegal_none_iff g).mp hok.1, fun mem => gemmOK_sound hc hok mem⟩
 
+/-! ## The gemm front ends (gemm.hpp:157-175, 228-243, 295-303) -/
+
+theorem load_conj (m : Mat) (mem : Mem R) (i j : Int) : m.conj.load mem i j = CRing.conj (m.load mem i j) := by
+  unfold Mat.load Mat.conj cjIf
+  cases h : m.cj <;> simp [CRing.conj_conj]
+
+theorem wf_conj {m : Mat} (h : m.WF) : m.conj.WF := ⟨h.n0, h.n1, h.s0, h.s1, h.fam⟩
+
+theorem shapes_conj {a b c : Mat} (h : GemmShapes a b c) : GemmShapes a.conj b.conj c.conj :=
+  ⟨wf_conj h.wa, wf_conj h.wb, wf_conj h.wc, h.m, h.k, h.n⟩
+
+/-- conj(C) := conj(alpha)·conj(A)·conj(B) + conj(beta)·conj(C)  is  C := alpha·A·B + beta·C -/
+theorem gemmSpec_of_conj {alpha beta : R} {a b c : Mat} {mem mem' : Mem R}
+    (h : GemmSpec (CRing.conj alpha) (CRing.conj beta) a.conj b.conj c.conj mem mem') : GemmSpec alpha beta a b c mem mem' := by
+  constructor
+  · intro i j hi0 hi hj0 hj
+    have e := h.elems i j hi0 hi hj0 hj
+    have e2 := congrArg CRing.conj e
+    rw [load_conj, CRing.conj_conj, CRing.conj_add, CRing.conj_mul, CRing.conj_mul, CRing.conj_conj, CRing.conj_conj, load_conj, CRing.conj_conj, conj_sumZ] at e2
+    rw [e2]
+    congr 1
+    congr 1
+    apply sumZ_congr
+    intro l _ _
+    rw [CRing.conj_mul, load_conj, load_conj, CRing.conj_conj, CRing.conj_conj]
+  · intro addr hno
+    exact h.frame addr hno
+
+/-- the certified domain of `blas::gemm(alpha, a, b, beta, c)`: for a conjugated C the chain runs on the conjugated operands -/
+def gemmFrontDom (t : Nat) (a b c : Mat) : Prop :=
+  if c.cj then gemmDom t a.conj b.conj c.conj else gemmDom t a b c
+
+/-- **gemm_correct (partial)** — `blas::gemm(alpha, a, b, beta, c)`, any conjugation pattern of A, B and C: a call issued
+    from a certified leaf is legal, the post-state is C := alpha·A·B + beta·C on the LOGICAL contents (conjugations applied),
+    and only the image of C is modified.
+
+    FULL statement (false for the current code: `finding_gemm_*`): the same for every leaf, i.e. without `hd`. -/
+theorem gemm_correct_partial {nd : Bool} {alpha beta : R} {a b c : Mat} {t : Nat} {cl : Call R}
+    (hs : GemmShapes a b c) (h : Front.gemm nd alpha beta a b c = .call t cl) (hd : gemmFrontDom t a b c) :
+    ∃ g, cl = .gemm g ∧ g.Legal ∧ ∀ mem : Mem R, GemmSpec alpha beta a b c mem (g.exec mem) := by
+  unfold Front.gemm at h
+  by_cases c1 : ¬ nd = true ∧ ¬ (a.n0 = c.n0)
+  · rw [if_pos c1] at h; cases h
+  rw [if_neg c1] at h
+  by_cases c2 : ¬ nd = true ∧ ¬ (a.n0 = 0) ∧ ¬ (a.n1 = b.n0)
+  · rw [if_pos c2] at h; cases h
+  rw [if_neg c2] at h
+  unfold gemmFrontDom at hd
+  cases hc : c.cj
+  · simp only [hc, Bool.false_eq_true, if_false] at h hd
+    exact gemm_n_correct_partial hs hc h hd
+  · simp only [hc, if_true] at h hd
+    unfold Front.gemmPlain at h
+    by_cases c3 : ¬ nd = true ∧ ¬ (a.conj.n0 = c.conj.n0)
+    · rw [if_pos c3] at h; cases h
+    rw [if_neg c3] at h
+    by_cases c4 : ¬ nd = true ∧ ¬ (a.conj.n0 = 0) ∧ ¬ (a.conj.n1 = b.conj.n0)
+    · rw [if_pos c4] at h; cases h
+    rw [if_neg c4] at h
+    have hc' : c.conj.cj = false := by simp [Mat.conj, hc]
+    obtain ⟨g, hg, hl, hsp⟩ := gemm_n_correct_partial (shapes_conj hs) hc' h hd
+    exact ⟨g, hg, hl, fun mem => gemmSpec_of_conj (hsp mem)⟩
+
+/-- `c = blas::gemm(alpha, a, b)` (also `c = a * b`): C := alpha·A·B + 0·C from a certified leaf -/
+theorem gemm_assign_correct_partial {nd : Bool} {alpha : R} {a b c : Mat} {t : Nat} {cl : Call R}
+    (hs : GemmShapes a b c) (hc : c.cj = false) (h : Front.gemmAssign nd alpha a b c = .call t cl) (hd : gemmDom t a b c) :
+    ∃ g, cl = .gemm g ∧ g.Legal ∧ ∀ mem : Mem R, GemmSpec alpha 0 a b c mem (g.exec mem) := by
+  unfold Front.gemmAssign at h
+  by_cases c1 : ¬ nd = true ∧ ¬ (c.n0 = a.n0)
+  · rw [if_pos c1] at h; cases h
+  rw [if_neg c1] at h
+  exact gemm_n_correct_partial hs hc h hd
+
+/-- `c += blas::gemm(alpha, a, b)` (also `c += a * b`): C := alpha·A·B + 1·C from a certified leaf -/
+theorem gemm_pluseq_correct_partial {nd : Bool} {alpha : R} {a b c : Mat} {t : Nat} {cl : Call R}
+    (hs : GemmShapes a b c) (hc : c.cj = false) (h : Front.gemmPlusEq nd alpha a b c = .call t cl) (hd : gemmDom t a b c) :
+    ∃ g, cl = .gemm g ∧ g.Legal ∧ ∀ mem : Mem R, GemmSpec alpha 1 a b c mem (g.exec mem) :=
+  gemm_n_correct_partial hs hc h hd
+
+/-! ## gemv (gemv.hpp:21-72, 96-166) -/
+section gemv
+variable [DecidableEq R]
+
+macro "gemv_branch" : tactic => `(tactic| (
+  refine ⟨_, rfl, ?_⟩
+  unfold GemvOK
+  rw [gemv_illegal_none_iff]
+  simp only [GemvCall.Legal, OpIs, Mat.lm, isTrans, Mat.Lin, Mat.RowOK, Mat.ColOK] at *
+  simp (config := {decide := true}) only [true_and, and_true, true_or, or_true, if_true, if_false, false_and, and_false, false_or, or_false, ne_eq, not_true_eq_false, not_false_eq_true, Decidable.not_not, *] at *
+  omega))
+
+/-- view invariants and fitting sizes for y := alpha·M·x + beta·y (x and y are plain vectors: conjugated ones do not compile) -/
+structure GemvHyp (m : Mat) (x y : Vec) : Prop where
+  lm : m.Lin
+  xn : 0 ≤ x.n
+  xi : 1 ≤ x.inc
+  yn : 0 ≤ y.n
+  yi : 1 ≤ y.inc
+  hm : m.n0 = y.n
+  hk : m.n1 = x.n
+  hx : x.cj = false
+  hy : y.cj = false
+
+omit [DecidableEq R] in
+/-- gemv.hpp:28 — M column-major: 'N' -/
+theorem gemv_branch_4_ok (alpha beta : R) (m : Mat) (x y : Vec) (H : GemvHyp m x y) (h : gemv_n.guard_4 m x y) (d : m.ColOK ∧ 1 ≤ m.n1) :
+    ∃ g, gemv_n.call_4 alpha beta m x y = .gemv g ∧ GemvOK g alpha beta m x y := by
+  obtain ⟨lm, xn, xi, yn, yi, hm, hk, hx, hy⟩ := H; unfold gemv_n.guard_4 at h; gemv_branch
+
+omit [DecidableEq R] in
+/-- gemv.hpp:29 — M row-major: 'T' on the transposed storage -/
+theorem gemv_branch_5_ok (alpha beta : R) (m : Mat) (x y : Vec) (H : GemvHyp m x y) (h : gemv_n.guard_5 m x y) (d : m.RowOK ∧ 1 ≤ m.n1) :
+    ∃ g, gemv_n.call_5 alpha beta m x y = .gemv g ∧ GemvOK g alpha beta m x y := by
+  obtain ⟨lm, xn, xi, yn, yi, hm, hk, hx, hy⟩ := H; unfold gemv_n.guard_5 at h; gemv_branch
+
+omit [DecidableEq R] in
+/-- gemv.hpp:32 — conj(M), M row-major: 'C' -/
+theorem gemv_branch_2_ok (alpha beta : R) (m : Mat) (x y : Vec) (H : GemvHyp m x y) (h : gemv_n.guard_2 m x y) (d : m.RowOK ∧ 1 ≤ m.n1) :
+    ∃ g, gemv_n.call_2 alpha beta m x y = .gemv g ∧ GemvOK g alpha beta m x y := by
+  obtain ⟨lm, xn, xi, yn, yi, hm, hk, hx, hy⟩ := H
+  unfold gemv_n.guard_2 at h
+  have hcj : m.cj = true := by cases hh : m.cj <;> simp_all
+  gemv_branch
+
+/-- certified domain of the leaves of `gemv_n`: the matrix is usable in the orientation the leaf assumes, and the inner
+    dimension is not empty (xGEMV returns before scaling y when n = 0: `finding_gemv_branch_*_inner0`) -/
+def gemvDom (t : Nat) (m : Mat) : Prop :=
+  match t with
+  | 2 => m.RowOK ∧ 1 ≤ m.n1
+  | 4 => m.ColOK ∧ 1 ≤ m.n1
+  | 5 => m.RowOK ∧ 1 ≤ m.n1
+  | _ => False
+
+omit [DecidableEq R] in
+theorem gemv_n_certified {nd : Bool} {alpha beta : R} {m : Mat} {x y : Vec} {t : Nat} {cl : Call R}
+    (H : GemvHyp m x y) (h : gemv_n nd alpha beta m x y = .call t cl) (hd : gemvDom t m) :
+    ∃ g, cl = .gemv g ∧ GemvOK g alpha beta m x y := by
+  revert hd
+  refine gemv_n.elim h (fun t cl => gemvDom t m → ∃ g, cl = .gemv g ∧ GemvOK g alpha beta m x y) ?_ ?_ ?_
+  · exact fun g d => gemv_branch_2_ok alpha beta m x y H g d
+  · exact fun g d => gemv_branch_4_ok alpha beta m x y H g d
+  · exact fun g d => gemv_branch_5_ok alpha beta m x y H g d
+
+/-- **gemv_correct (partial)** for `gemv_n`: from a certified leaf the call is legal and y := alpha·M·x + beta·y on the logical
+    contents, nothing but the image of y changes.  FULL statement (false: `finding_gemv_*`): without `hd`. -/
+theorem gemv_n_correct_partial {nd : Bool} {alpha beta : R} {m : Mat} {x y : Vec} {t : Nat} {cl : Call R}
+    (H : GemvHyp m x y) (h : gemv_n nd alpha beta m x y = .call t cl) (hd : gemvDom t m) :
+    ∃ g, cl = .gemv g ∧ g.Legal ∧ ∀ mem : Mem R, GemvSpec alpha beta m x y mem (g.exec mem) := by
+  obtain ⟨g, hg, hok⟩ := gemv_n_certified H h hd
+  exact ⟨g, hg, (gemv_illegal_none_iff g).mp hok.1, fun mem => gemvOK_sound hok mem⟩
+
+/-- `blas::gemv(alpha, M, x, beta, y)` -/
+theorem gemv_correct_partial {nd : Bool} {alpha beta : R} {m : Mat} {x y : Vec} {t : Nat} {cl : Call R}
+    (H : GemvHyp m x y) (h : Front.gemv nd alpha beta m x y = .call t cl) (hd : gemvDom t m) :
+    ∃ g, cl = .gemv g ∧ g.Legal ∧ ∀ mem : Mem R, GemvSpec alpha beta m x y mem (g.exec mem) := by
+  unfold Front.gemv at h
+  by_cases c1 : ¬ nd = true ∧ ¬ (m.n0 = y.n)
+  · rw [if_pos c1] at h; cases h
+  rw [if_neg c1] at h
+  by_cases c2 : ¬ nd = true ∧ ¬ (m.n1 = x.n)
+  · rw [if_pos c2] at h; cases h
+  rw [if_neg c2] at h
+  exact gemv_n_correct_partial H h hd
+
+/-- `y = blas::gemv(alpha, M, x)`: beta = 0 -/
+theorem gemv_assign_correct_partial {nd : Bool} {alpha : R} {m : Mat} {x y : Vec} {t : Nat} {cl : Call R}
+    (H : GemvHyp m x y) (h : Front.gemvAssign nd alpha m x y = .call t cl) (hd : gemvDom t m) :
+    ∃ g, cl = .gemv g ∧ g.Legal ∧ ∀ mem : Mem R, GemvSpec alpha 0 m x y mem (g.exec mem) := by
+  unfold Front.gemvAssign at h
+  by_cases c1 : ¬ nd = true ∧ ¬ (m.n1 = x.n)
+  · rw [if_pos c1] at h; cases h
+  rw [if_neg c1] at h
+  by_cases c2 : ¬ nd = true ∧ ¬ (y.n = m.n0)
+  · rw [if_pos c2] at h; cases h
+  rw [if_neg c2] at h
+  exact gemv_n_correct_partial H h hd
+
+/-- `y += blas::gemv(alpha, M, x)`: beta = 1 -/
+theorem gemv_pluseq_correct_partial {nd : Bool} {alpha : R} {m : Mat} {x y : Vec} {t : Nat} {cl : Call R}
+    (H : GemvHyp m x y) (h : Front.gemvPlusEq nd alpha m x y = .call t cl) (hd : gemvDom t m) :
+    ∃ g, cl = .gemv g ∧ g.Legal ∧ ∀ mem : Mem R, GemvSpec alpha 1 m x y mem (g.exec mem) := by
+  unfold Front.gemvPlusEq at h
+  by_cases c1 : ¬ nd = true ∧ ¬ (m.n1 = x.n)
+  · rw [if_pos c1] at h; cases h
+  rw [if_neg c1] at h
+  exact gemv_n_correct_partial H h hd
+
+structure GemvCounterexample (guard : Mat → Vec → Vec → Prop) (call : GInt → GInt → Mat → Vec → Vec → Call GInt) (m : Mat) (x y : Vec) : Prop where
+  wf : m.WF
+  sizes : m.n0 = y.n ∧ m.n1 = x.n ∧ 1 ≤ x.inc ∧ 1 ≤ y.inc ∧ x.cj = false ∧ y.cj = false
+  guard : guard m x y
+  bad : ∃ g : GemvCall GInt, call 1 ⟨2, 1⟩ m x y = .gemv g ∧ (g.illegal ≠ none ∨ ¬ GemvSpec 1 ⟨2, 1⟩ m x y zmem (g.exec zmem))
+
+/-- gemv.hpp:28 — a contiguous m×1 matrix (both strides 1, m > 1) is taken for column-major with lda = 1: XERBLA parameter 6 -/
+theorem finding_gemv_branch_4 : GemvCounterexample gemv_n.guard_4 gemv_n.call_4 ⟨0, 1, 1, 3, 1, false⟩ ⟨100, 1, 1, false⟩ ⟨200, 1, 3, false⟩ :=
+  ⟨by wf_dec, by decide, by decide, _, rfl, Or.inl (by decide)⟩
+
+/-- gemv.hpp:28 — inner dimension 0: the legal call returns at once, y is not scaled by beta -/
+theorem finding_gemv_branch_4_inner0 : GemvCounterexample gemv_n.guard_4 gemv_n.call_4 ⟨0, 1, 3, 2, 0, false⟩ ⟨100, 1, 0, false⟩ ⟨200, 1, 2, false⟩ :=
+  ⟨by wf_dec, by decide, by decide, _, rfl, Or.inr (fun h => absurd (h.elems 0 (by decide) (by decide)) (by decide))⟩
+
+/-- gemv.hpp:29 — inner dimension 0 -/
+theorem finding_gemv_branch_5_inner0 : GemvCounterexample gemv_n.guard_5 gemv_n.call_5 ⟨0, 3, 1, 2, 0, false⟩ ⟨100, 1, 0, false⟩ ⟨200, 1, 2, false⟩ :=
+  ⟨by wf_dec, by decide, by decide, _, rfl, Or.inr (fun h => absurd (h.elems 0 (by decide) (by decide)) (by decide))⟩
+
+/-- gemv.hpp:32 — inner dimension 0, conjugated matrix -/
+theorem finding_gemv_branch_2_inner0 : GemvCounterexample gemv_n.guard_2 gemv_n.call_2 ⟨0, 3, 1, 2, 0, true⟩ ⟨100, 1, 0, false⟩ ⟨200, 1, 2, false⟩ :=
+  ⟨by wf_dec, by decide, by decide, _, rfl, Or.inr (fun h => absurd (h.elems 0 (by decide) (by decide)) (by decide))⟩
+
+end gemv
+
+/-! ## level 1: axpy, scal, copy, swap, dot (axpy.hpp, scal.hpp, copy.hpp, swap.hpp, dot.hpp) -/
+section level1
+
+/-- **axpy_correct** — `blas::axpy(alpha, x, y)` (also `y += alpha*x`, `y += x`, `y -= x` with the corresponding scalar):
+    y := alpha·x + y on the logical contents; only the image of y changes.  Plain vectors with positive strides. -/
+theorem axpy_correct {nd : Bool} {alpha : R} {x y : Vec} {t : Nat} {cl : Call R}
+    (hx : x.cj = false) (hy : y.cj = false) (hxi : 1 ≤ x.inc) (hyi : 1 ≤ y.inc)
+    (h : Front.axpy nd alpha x y = .call t cl) :
+    ∃ g, cl = .axpy g ∧ ∀ mem : Mem R, AxpySpec alpha x y mem (g.execAxpy mem) := by
+  unfold Front.axpy at h
+  by_cases c1 : ¬ nd = true ∧ ¬ (x.n = y.n)
+  · rw [if_pos c1] at h; cases h
+  rw [if_neg c1] at h
+  unfold axpy_n at h
+  injection h with _ hc
+  subst hc
+  exact ⟨_, rfl, fun mem => axpy_sound (g := ⟨y.n, alpha, x.base, x.inc, y.base, y.inc⟩) ⟨rfl, rfl, rfl, rfl, rfl, hx, hy, hxi, hyi⟩ rfl mem⟩
+
+/-- `y += blas::axpy(alpha, x)` / `y -= blas::axpy(alpha, x)` (the latter with -alpha): needs the sizes to agree, which the
+    range form asserts only in assertion-enabled builds -/
+theorem axpy_range_correct {nd : Bool} {alpha : R} {x y : Vec} {t : Nat} {cl : Call R}
+    (hx : x.cj = false) (hy : y.cj = false) (hxi : 1 ≤ x.inc) (hyi : 1 ≤ y.inc) (hn : x.n = y.n)
+    (h : Front.axpyRange nd alpha x y = .call t cl) :
+    ∃ g, cl = .axpy g ∧ ∀ mem : Mem R, AxpySpec alpha x y mem (g.execAxpy mem) := by
+  unfold Front.axpyRange at h
+  by_cases c1 : ¬ nd = true ∧ ¬ (y.n = x.n)
+  · rw [if_pos c1] at h; cases h
+  rw [if_neg c1] at h
+  unfold axpy_n at h
+  injection h with _ hc
+  subst hc
+  exact ⟨_, rfl, fun mem => axpy_sound (g := ⟨x.n, alpha, x.base, x.inc, y.base, y.inc⟩) ⟨hn, rfl, rfl, rfl, rfl, hx, hy, hxi, hyi⟩ rfl mem⟩
+
+/-- **scal_correct** — `blas::scal(alpha, x)` / `x *= alpha` -/
+theorem scal_correct {nd : Bool} {alpha : R} {x : Vec} {t : Nat} {cl : Call R}
+    (hx : x.cj = false) (hxi : 1 ≤ x.inc) (h : Front.scal nd alpha x = .call t cl) :
+    ∃ g, cl = .scal g ∧ ∀ mem : Mem R, ScalSpec alpha x mem (g.execScal mem) := by
+  unfold Front.scal scal_n at h
+  injection h with _ hc
+  subst hc
+  exact ⟨_, rfl, fun mem => scal_sound (g := ⟨x.n, alpha, x.base, x.inc, 0, 0⟩) rfl rfl rfl hx hxi rfl mem⟩
+
+/-- **copy_correct** — `blas::copy(x, y)` / `y << x` -/
+theorem copy_correct {nd : Bool} {x y : Vec} {t : Nat} {cl : Call R}
+    (hx : x.cj = false) (hy : y.cj = false) (hxi : 1 ≤ x.inc) (hyi : 1 ≤ y.inc) (hn : x.n = y.n)
+    (h : Front.copy nd x y = .call t cl) :
+    ∃ g, cl = .copy g ∧ ∀ mem : Mem R, CopySpec x y mem (g.execCopy mem) := by
+  unfold Front.copy at h
+  by_cases c1 : ¬ nd = true ∧ ¬ (x.n = y.n)
+  · rw [if_pos c1] at h; cases h
+  rw [if_neg c1] at h
+  unfold copy_n at h
+  injection h with _ hc
+  subst hc
+  exact ⟨_, rfl, fun mem => copy_sound (g := ⟨x.n, 0, x.base, x.inc, y.base, y.inc⟩) ⟨hn, rfl, rfl, rfl, rfl, hx, hy, hxi, hyi⟩ mem⟩
+
+/-- `y = blas::copy(x)` -/
+theorem copy_assign_correct {nd : Bool} {x y : Vec} {t : Nat} {cl : Call R}
+    (hx : x.cj = false) (hy : y.cj = false) (hxi : 1 ≤ x.inc) (hyi : 1 ≤ y.inc) (hn : x.n = y.n)
+    (h : Front.copyAssign nd x y = .call t cl) :
+    ∃ g, cl = .copy g ∧ ∀ mem : Mem R, CopySpec x y mem (g.execCopy mem) := by
+  unfold Front.copyAssign at h
+  by_cases c1 : ¬ nd = true ∧ ¬ (y.n = x.n)
+  · rw [if_pos c1] at h; cases h
+  rw [if_neg c1] at h
+  unfold copy_n at h
+  injection h with _ hc
+  subst hc
+  exact ⟨_, rfl, fun mem => copy_sound (g := ⟨x.n, 0, x.base, x.inc, y.base, y.inc⟩) ⟨hn, rfl, rfl, rfl, rfl, hx, hy, hxi, hyi⟩ mem⟩
+
+/-- **swap_correct** — `blas::swap(x, y)` for views that do not overlap -/
+theorem swap_correct {nd : Bool} {x y : Vec} {t : Nat} {cl : Call R}
+    (hx : x.cj = false) (hy : y.cj = false) (hxi : 1 ≤ x.inc) (hyi : 1 ≤ y.inc) (hn : x.n = y.n)
+    (hdis : ∀ i j : Int, 0 ≤ i → i < x.n → 0 ≤ j → j < y.n → x.addr i ≠ y.addr j)
+    (h : Front.swap nd x y = .call t cl) :
+    ∃ g, cl = .swap g ∧ ∀ mem : Mem R, SwapSpec x y mem (g.execSwap mem) := by
+  unfold Front.swap at h
+  by_cases c1 : ¬ nd = true ∧ ¬ (x.n = y.n)
+  · rw [if_pos c1] at h; cases h
+  rw [if_neg c1] at h
+  unfold swap_n at h
+  injection h with _ hc
+  subst hc
+  exact ⟨_, rfl, fun mem => swap_sound (g := ⟨x.n, 0, x.base, x.inc, y.base, y.inc⟩) ⟨hn, rfl, rfl, rfl, rfl, hx, hy, hxi, hyi⟩ hn hdis mem⟩
+
+theorem dotResult_dot {ty : Char} {g : L1Call R} {mem : Mem R} {v : R} (h : Front.dotResult ty (.dot g) mem = some v) :
+    v = dotVal false g.n g.x g.incx g.y g.incy mem := by
+  simp only [Front.dotResult] at h
+  by_cases c : ty = 's' ∧ g.n ≤ 0
+  · rw [if_pos c] at h; cases h
+  · rw [if_neg c] at h; injection h with h; exact h.symm
+
+theorem dotResult_dotu {ty : Char} {g : L1Call R} {mem : Mem R} {v : R} (h : Front.dotResult ty (.dotu g) mem = some v) :
+    v = dotVal false g.n g.x g.incx g.y g.incy mem := by
+  simp only [Front.dotResult] at h
+  by_cases c : g.n ≤ 0
+  · rw [if_pos c] at h; cases h
+  · rw [if_neg c] at h; injection h with h; exact h.symm
+
+theorem dotResult_dotc {ty : Char} {g : L1Call R} {mem : Mem R} {v : R} (h : Front.dotResult ty (.dotc g) mem = some v) :
+    v = dotVal true g.n g.x g.incx g.y g.incy mem := by
+  simp only [Front.dotResult] at h
+  injection h with h; exact h.symm
+
+/-- Σ x_i·y_i on the logical contents -/
+def dotSpec (x y : Vec) (mem : Mem R) : R := sumZ x.n (fun i => x.load mem i * y.load mem i)
+
+/-- **dot_correct (partial)** — `blas::dot(x, y)` with x, y, or one of them conjugated (`blas::C`): when a value is delivered it is
+    Σ x_i·y_i on the logical contents; memory is not modified by the routine.  A value IS delivered except for n = 0 with
+    float or (non-conjugated) complex elements (`finding_dot_empty`). -/
+theorem dot_correct_partial {nd cplx : Bool} {ty : Char} {x y : Vec} {t : Nat} {cl : Call R} {v : R} (mem : Mem R)
+    (hn : x.n = y.n) (hc : cplx = false → x.cj = false ∧ y.cj = false)
+    (h : Front.dot nd cplx x y = .call t cl) (hv : Front.dotResult ty cl mem = some v) : v = dotSpec x y mem := by
+  unfold Front.dot at h
+  by_cases c1 : ¬ nd = true ∧ ¬ (x.n = y.n)
+  · rw [if_pos c1] at h; cases h
+  rw [if_neg c1] at h
+  unfold dotSpec
+  refine dot_n.elim h (fun t cl => Front.dotResult ty cl mem = some v → v = sumZ x.n (fun i => x.load mem i * y.load mem i)) ?_ ?_ ?_ ?_ hv
+  · -- dotc(x_u, y): x conjugated
+    intro g hv
+    unfold dot_n.guard_2 at g
+    have hx : x.cj = true := by cases hh : x.cj <;> cases hh2 : y.cj <;> simp_all
+    have hy : y.cj = false := by cases hh : x.cj <;> cases hh2 : y.cj <;> simp_all
+    unfold dot_n.call_2 at hv
+    rw [dotResult_dotc hv]
+    unfold dotVal
+    apply sumZ_congr
+    intro i _ _
+    unfold Vec.load
+    rw [hx, hy]
+    rfl
+  · -- dotc(y_u, x): y conjugated
+    intro g hv
+    unfold dot_n.guard_3 at g
+    have hx : x.cj = false := by cases hh : x.cj <;> cases hh2 : y.cj <;> simp_all
+    have hy : y.cj = true := by cases hh : x.cj <;> cases hh2 : y.cj <;> simp_all
+    unfold dot_n.call_3 at hv
+    rw [dotResult_dotc hv]
+    unfold dotVal
+    apply sumZ_congr
+    intro i _ _
+    unfold Vec.load
+    rw [hx, hy, CRing.mul_comm]
+    rfl
+  · -- dotu(x, y)
+    intro g hv
+    unfold dot_n.guard_4 at g
+    have hx : x.cj = false := by cases hh : x.cj <;> cases hh2 : y.cj <;> simp_all
+    have hy : y.cj = false := by cases hh : x.cj <;> cases hh2 : y.cj <;> simp_all
+    unfold dot_n.call_4 at hv
+    rw [dotResult_dotu hv]
+    unfold dotVal
+    apply sumZ_congr
+    intro i _ _
+    unfold Vec.load
+    rw [hx, hy]
+    rfl
+  · -- real dot(x, y)
+    intro g hv
+    unfold dot_n.guard_5 at g
+    have hcf : cplx = false := by cases hh : cplx <;> simp_all
+    obtain ⟨hx, hy⟩ := hc hcf
+    unfold dot_n.call_5 at hv
+    rw [dotResult_dot hv]
+    unfold dotVal
+    apply sumZ_congr
+    intro i _ _
+    unfold Vec.load
+    rw [hx, hy]
+    rfl
+
+/-- dot of EMPTY float vectors (core.hpp:295: sgemv('N', 1, 0, …) returns at once): no value is delivered although the
+    mathematical result is 0.  Same for complex `dotu` (core.hpp:357, 362). -/
+theorem finding_dot_empty :
+    Front.dot (R := Int) false false ⟨0, 1, 0, false⟩ ⟨100, 1, 0, false⟩ = .call 5 (dot_n.call_5 0 ⟨0, 1, 0, false⟩ ⟨100, 1, 0, false⟩) ∧
+    Front.dotResult 's' (dot_n.call_5 (R := Int) 0 ⟨0, 1, 0, false⟩ ⟨100, 1, 0, false⟩) (fun a => a) = none ∧
+    Front.dotResult 'z' (dot_n.call_4 (R := GInt) 0 ⟨0, 1, 0, false⟩ ⟨100, 1, 0, false⟩) zmem = none := by
+  refine ⟨by rfl, by decide, by decide⟩
+
+end level1
+
 /-! ## dispatch_legal in assertion-enabled builds (FULL for gemm)
 
   `core::gemm` (core.hpp:513-533) re-checks the leading dimensions with BOOST_MULTI_ASSERT1, which throws when NDEBUG is not
@@ -355,8 +752,6 @@ theorem gemm_dispatch_legal_debug {alpha beta : R} {a b c : Mat} {t : Nat} {cl :
   leaf is illegal for the reference BLAS (XERBLA: nothing is computed) or is legal but its post-state is not
   alpha·A·B + beta·C.  The ring is the Gaussian integers, alpha = 1, beta = 2 + i, memory `zmem`.  The same classes are
   reproduced against the real library by harness/blas.cpp (findings/C13.json). -/
-
-def zmem : Mem GInt := fun a => ⟨a * a + 1, 2 * a + 3⟩
 
 structure GemmCounterexample (guard : Mat → Mat → Mat → Prop) (call : GInt → GInt → Mat → Mat → Mat → Call GInt) (a b c : Mat) : Prop where
   shapes : GemmShapes a b c
